@@ -133,10 +133,22 @@ def _stress_corpus(ctx):
 
 def run(ctx):
     ctx.modelled += [
-        "every critical section under controller.lock is one atomic step of RL.Step; the ticker goroutine and the "
-        "goroutine in root Close have program counters for their lock acquisitions and the unbuffered `done` hand-over",
-        "answer channels (buffer 1) are not modelled as channels: C16.answer_exactly_once shows each receives one value, "
-        "so the sends inside the critical sections cannot block",
+        "controller.lock is a field of the model state (RL.S.holder): the ticker goroutine (select / lock / body / "
+        "unlock; done received / lock / drain / unlock), the goroutine in root Close (lock / mark / unlock / send on the "
+        "unbuffered `done`, a joint step with the receiver) and the callers of the API (lock / body-and-unlock) take and "
+        "release it in separate steps, a step that needs it is enabled only while it is free; RL.StepU is the same "
+        "system with the unrepaired order (send while holding the lock), in which a deadlock is reachable "
+        "(C16.unrepaired_close_deadlocks)",
+        "body and unlock of an API call are one step: the holder does nothing blocking in between (answer channels have "
+        "buffer 1 and receive one value each, C16.answer_exactly_once); Cap/LastUsed/Closed (read lock) are modelled as "
+        "exclusive holders",
+        "the history fields (answered, glog, capMax, ...) are written by the model in the same step as the action they "
+        "record; that the code's critical sections do what the model's do is the transcription, checked by the tie",
+        "area burst runs fused calls (RL.exec = the schedule lock/body/unlock of one call at a time); area window "
+        "(lines `window early|late op ; op ; op`) runs the Close-vs-tick window: the harness holds the lock (white box, "
+        "go/overlay/c16_rate_hook.go) across a tick so that the ticker goroutine and up to three calls (root/child "
+        "Close, Use, SetCap, New) wait for it, releases it, and the driver computes the outcomes of ALL interleavings of "
+        "the single steps (RL.micro / runMicros); the line is accepted iff the observed outcome is in the set",
         "the lock-step harness observes ticks through a white-box sentinel request (go/overlay/c16_rate_hook.go) on a "
         "detached closed limiter; it does not touch the tree",
     ]
@@ -148,13 +160,16 @@ def run(ctx):
         "C16.int_arithmetic_exact shows 0 <= used, last, queued amounts <= MaxInt and used <= capacity, so every "
         "`capacity - used` of the code is exact and `used += amount` cannot wrap; both ties run capacities and "
         "amounts at MaxInt, MaxInt-1, MaxInt/2+1 with usage summing past MaxInt within a period",
-        "SetCap is a step of RL.Step (new cap >= 0): every theorem holds with SetCap calls anywhere in the run, except "
-        "granted_le_cap / granted_le_min_cap_of_chain, which assume that SetCap has not been called so far (DESIGN "
-        "Appendix B: SetCap mid-period is outside the stated quantifier); SetCap is generated and compared in both ties",
+        "SetCap is a step of RL.Step (new cap >= 0) and every theorem holds with SetCap calls anywhere in the run: the "
+        "cap bound is then C16.granted_le_max_cap_in_force / granted_le_max_cap_of_chain (granted in period p <= the "
+        "largest capacity the limiter, resp. each ancestor, had during p); granted_le_cap / "
+        "granted_le_min_cap_of_chain are the special case without SetCap so far; SetCap is generated in all ties",
         "`exceeds the cap` is the limiter's own cap: a request above an ancestor's cap but within its own waits until "
         "Close (model and code agree; not alarmed on)",
-        "close_returns is deadlock-freedom plus a 3-step path to the return; that the Go scheduler and `select` "
-        "eventually take an enabled step is assumed",
+        "close_returns is deadlock freedom over all interleavings with the lock modelled; termination of Close "
+        "(close_returns_under_fair_scheduling) assumes scheduler fairness only: goroutines inside their own critical "
+        "section run, sync.Mutex is fair to the waiting ticker goroutine, select takes a case that is ready again and "
+        "again (C16.fair_run_exists: the assumptions are satisfiable)",
         "timing: a lock-step burst counts only if it certainly lies within one period (wall-clock window check)",
         "only nil / error is compared for an answer, not which error nor its text (the harness reads the class off the "
         "message; a reworded message must not alarm)",
